@@ -30,7 +30,13 @@ var vfHostileU32 = []uint32{0, 1, 2, 3, 4, 5, 8, 9, 255, 256, 65535, 65536, 1<<3
 
 func vfGenMut(t *rapid.T) vfMut {
 	m := vfMut{}
-	switch rapid.IntRange(0, 12).Draw(t, "mutkind") {
+	switch rapid.IntRange(0, 13).Draw(t, "mutkind") {
+	case 13:
+		// the stream itself stops inside this reply: after Off of its bytes the transport reports EOF (Val 0)
+		// or a read error (Val 1) - not a malformed reply but the end of all replies (seed C20-e)
+		m.Kind = "break"
+		m.Off = rapid.SampledFrom([]int{0, 1, 2, 3, 4, 5, 8, 9, 13, 20}).Draw(t, "breakat")
+		m.Val = uint32(rapid.IntRange(0, 1).Draw(t, "breakerr"))
 	case 0, 1, 2:
 		m.Kind = "cut"
 		m.Off = rapid.IntRange(0, 40).Draw(t, "cutat")
@@ -250,6 +256,21 @@ func vfRunC20(ctx *vfCtx, c vfCaseC20) {
 			}
 			k := replies
 			replies++
+			if k == c.ReplyIdx && c.Mut.Kind == "break" && !opOver.Load() {
+				mutated = true
+				origFrame, mutFrame = frame, frame
+				at := c.Mut.Off
+				if at > len(frame) {
+					at = len(frame)
+				}
+				l.S2C.mu.Lock()
+				l.S2C.cut = int64(len(l.S2C.tap) + at)
+				if c.Mut.Val != 0 {
+					l.S2C.cutErr = errVfCut
+				}
+				l.S2C.mu.Unlock()
+				return frame
+			}
 			if k == c.ReplyIdx && c.Mut.Kind != "none" && !opOver.Load() {
 				mutated = true
 				origFrame = frame
